@@ -16,8 +16,8 @@ RULE = ("exhaustive over the finite constants table: every name in quantities.__
         "(value and exponent vector, computed on the observed values). distinct = distinct constant/identity names.")
 ASSUMPTIONS = ["vf/data/constants_ref.json (typed from CODATA 2018/2022, IAU 2015) is the reference",
                "SymPy's dimsys_SI.get_dimensional_dependencies is trusted to expand a Dimension into base exponents"]
-MIN_REACH = {"quick": {"constant_checked": 25, "identity_checked": 7},
-             "thorough": {"constant_checked": 25, "identity_checked": 7}}
+MIN_REACH = {"quick": {"constant_checked": 25, "identity_checked": 7, "registry_checked": 25, "constant_rechecked": 25},
+             "thorough": {"constant_checked": 25, "identity_checked": 7, "registry_checked": 25, "constant_rechecked": 25}}
 
 
 def plan(tier, seed):
@@ -101,6 +101,20 @@ def work(spec, rec):
                           f"{mpmath.nstr(abs(si_v - refv) / abs(refv), 3)} > {e['tol']}", case)
         if abs(api_v - si_v) > 1e-12 * abs(si_v):
             rec.violation(f"convert_to_si:{name}", f"convert_to_si({name}) = {api_v} but scale factor gives {si_v}", case)
+        # the same constant read through the unit system it is registered in (what SymPy's own convert_to uses)
+        try:
+            from sympy.physics import units as U
+            from sympy.physics.units.systems import SI
+            reg_vec = units_ref.observed_vector(SI.get_quantity_dimension(q))
+            conv = U.convert_to(q, [U.kilogram, U.meter, U.second, U.ampere, U.kelvin, U.mole, U.candela])
+            coeff = sympy.N(conv.subs({b_: 1 for b_ in (U.kilogram, U.meter, U.second, U.ampere, U.kelvin, U.mole, U.candela)}), 30)
+            rec.hit("registry_checked")
+            if reg_vec != want_vec:
+                rec.violation(f"dimension:{name}:unit-system", f"{name}: the SI unit system has it registered with dimension {SI.get_quantity_dimension(q)} (reference {units_ref.vfmt(want_vec)})", case)
+            elif not coeff.is_number or abs(mpmath.mpf(sympy.N(coeff, 30)) - refv) > max(e["tol"], 1e-12) * abs(refv):
+                rec.violation(f"value:{name}:unit-system", f"sympy convert_to({name}, SI base units) = {conv} (reference {refv})", case)
+        except Exception as x:  # pylint: disable=broad-except
+            rec.inconc("unit-system read raised " + type(x).__name__, {"name": name, "err": str(x)[:100]})
     for name in table:
         if name not in names:
             rec.violation(f"missing:{name}", f"reference constant {name} is absent from the constants module", {"name": name})
@@ -139,6 +153,27 @@ def work(spec, rec):
                 rec.violation(f"identity-lib:{ident['name']}", f"{ident['name']} via Quantity arithmetic: {lv} vs {rv}", case)
         except Exception as x:  # pylint: disable=broad-except
             rec.inconc("identity via library raised " + type(x).__name__, {"identity": ident["name"], "err": str(x)})
+    # the table must still be what it was after the constants have been *used*: every constant goes through the library's
+    # conversion / evaluation / comparison functions, then values and dimensions are read again
+    from symplyphysics import convert_to, assert_equal, Quantity
+    from symplyphysics.core.convert import evaluate_quantity, evaluate_expression
+    before = {n_: (units_ref.observed_si_value(getattr(Q, n_)), units_ref.observed_vector(getattr(Q, n_).dimension)) for n_ in observed}
+    for n_ in observed:
+        q = getattr(Q, n_)
+        for use in (lambda: evaluate_quantity(q, n=4), lambda: evaluate_quantity(q), lambda: evaluate_expression(2 * q, evaluate=True, n=5), lambda: convert_to_si(q),
+                    lambda: convert_to(q, Quantity(3 * q)), lambda: Quantity(q ** 2 / 3), lambda: assert_equal(q, q), lambda: sympy.N(q.scale_factor, 3)):
+            try:
+                use()
+            except Exception:  # pylint: disable=broad-except
+                rec.add("use_raised")
+        rec.hit("constants_used")
+    for n_ in observed:
+        q = getattr(Q, n_)
+        now = (units_ref.observed_si_value(q), units_ref.observed_vector(q.dimension))
+        rec.hit("constant_rechecked")
+        same_v = sympy.N(now[0], 30) == sympy.N(before[n_][0], 30)
+        if not same_v or now[1] != before[n_][1]:
+            rec.violation(f"value-changed-by-use:{n_}", f"{n_} was {sympy.N(before[n_][0], 20)} before the constants were passed through evaluate_quantity / convert_to / Quantity / assert_equal and is {sympy.N(now[0], 20)} afterwards", {"name": n_})
     rec.extra["exhaustive"] = True
     rec.extra["exported"] = len(exported)
     rec.extra["public_quantities"] = len(public)
